@@ -192,7 +192,8 @@ PROPS = {
         "text": "Every try/timed acquisition form and handle life cycle (destroy, unlock, move-construct, move-assign) is generated against holders that keep the lock while a contender is inside a try call. "
                 "Handle truthiness is compared with the modelled mutex's owner at each return; disabled mode must execute no mutex operation; a try call that blocks shows up as livelock. Exploration only.",
         "assumptions": ["time-outs are generated data: a timed wait gives up after a generated number of scheduler steps (at most 80)", "truthiness of moved-from handles is not asserted"],
-        "stages": [{"family": "locks", "flavour": "plain", "target": "C08", "cases": (400000, 6000000), "maxsec": (40, 400)}],
+        "stages": [{"family": "locks", "flavour": "plain", "target": "C08", "cases": (400000, 6000000), "maxsec": (40, 400)},
+                   {"family": "deferred", "flavour": "plain", "target": "C08d", "cases": (200000, 3000000), "maxsec": (25, 300)}],
     },
     "C14": {
         "level": "exploration",
@@ -282,6 +283,11 @@ _FUZZ = [("C01", "locks", "C01"), ("C02", "locks", "C02"), ("C03", "lrcow", "C03
          ("C19", "tripwire", "C19"), ("C20", "lrcow", "C20lr"), ("C20", "deferred", "C20d")]
 for _pid, _fam, _tgt in _FUZZ:
     PROPS[_pid]["stages"].append({"family": _fam, "flavour": "fuzz", "target": _tgt, "fuzz": True, "tiers": ("thorough",), "fuzz_secs": 75, "jobs": 8})
+
+# real-thread programs under AddressSanitizer+UBSan+LeakSanitizer (thorough tier): real allocations, real shared_ptr reference counts
+for _pid, _tgt in [("C05", "RTrcu"), ("C13", "RTrcu"), ("C04", "RTcow"), ("C03", "RTlr"), ("C16", "RTdd"), ("C17", "RTsoh"), ("C18", "RTdobj")]:
+    PROPS[_pid]["stages"].append({"family": "rt", "flavour": "rtasan", "target": _tgt, "cases": (4000, 120000), "maxsec": (20, 300), "stochastic": True,
+                                  "min_nontrivial_frac": 0.5, "tiers": ("thorough",)})
 
 ALL_IDS = ["C%02d" % i for i in range(1, 21)]
 NOT_YET = "check not built yet in this session (planned, see DESIGN.md §5); not claimed until its machinery exists and has passed its mutant self-test"
